@@ -164,11 +164,11 @@ func runOps(sc SeqCheck, ops []Op) (own []Violation, trace []string) {
 	return nil, trace
 }
 
-// residueTask returns a task that is todo but claimed - what a claim whose state line was
-// torn off leaves - or "".
+// residueTask returns a task that is todo / done / canceled but claimed - what a
+// claim+state batch whose state line was torn off leaves - or "".
 func residueTask(s *Snapshot) string {
 	for _, id := range s.SortedIDs() {
-		if it := s.Items[id]; !it.IsEpic && it.State == "todo" && it.ClaimedBy != "" {
+		if it := s.Items[id]; !it.IsEpic && forbidsClaim(it.State) && it.ClaimedBy != "" {
 			return id
 		}
 	}
@@ -231,6 +231,21 @@ func RunSeq(t *testing.T, sc SeqCheck) {
 				kind := "tear"
 				if inner.Kind == "plan" || inner.Kind == "compact" {
 					kind = "tmp"
+				}
+				if kind == "tear" && pct(rt, 30, "seq.fault.reopen") {
+					// a reopening `set` (claim + state=todo) of a finished task, torn after its claim
+					// line: the task stays finished and gets a claimant nobody meant it to keep
+					var fin []string
+					for _, id := range pre.SortedIDs() {
+						if it := pre.Items[id]; !it.IsEpic && (it.State == "done" || it.State == "canceled") {
+							fin = append(fin, id)
+						}
+					}
+					if len(fin) > 0 {
+						g := refGen{rt, w, pre}
+						r := g.ref(oneOf(rt, fin, "seq.fault.reopen.target"))
+						inner = Op{Kind: "set", Mode: "json", Target: &r, Claim: sp(oneOf(rt, agents, "seq.fault.reopen.agent")), State: sp("todo")}
+					}
 				}
 				frac := uni(rt, 1000, "seq.fault.frac")
 				if kind == "tear" && pct(rt, 50, "seq.fault.late") {
